@@ -413,6 +413,51 @@ def gen():
     defB("READY_TO_WRITE_CONST_TRUE", allconst)
     emit("")
 
+    # ---- events.rs: what the blocking receives wait for; order of the non-blocking choice ------
+    ev = strip_comments(read("events.rs"))
+    emit("(* events.rs *)")
+    emit("Inductive select_arm := ArmPlain | ArmPrio | ArmCmd | ArmAlarm | ArmDefault | ArmOther.")
+
+    def arms_of(fn):
+        body = fn_body(ev, r"pub fn " + fn + r"\s*\(&mut self", "events.rs::" + fn)
+        m = re.search(r"select!\s*\{", body)
+        if not m:
+            raise GenError(f"events.rs::{fn}: no select!")
+        i = body.index("{", m.start())
+        depth, j = 0, i
+        while j < len(body):
+            if body[j] == "{": depth += 1
+            elif body[j] == "}":
+                depth -= 1
+                if depth == 0: break
+            j += 1
+        sel = body[i + 1:j]
+        arms = []
+        for a in re.finditer(r"(recv\(\s*([^)]*?)\s*\)|default\(\s*([^)]*?)\s*\))\s*(?:->\s*\w+\s*)?=>", sel):
+            if a.group(1).startswith("default"):
+                arms.append("ArmDefault")
+            else:
+                arms.append({"self.receiver": "ArmPlain", "self.priority_receiver": "ArmPrio", "self.timer_receiver": "ArmCmd", "alarm": "ArmAlarm"}.get(a.group(2), "ArmOther"))
+        loops_on_try = bool(re.search(r"loop\s*\{\s*if let Some\(event\) = self\.try_receive\(\)\s*\{\s*return", body))
+        return arms, loops_on_try
+
+    for fn, nm in [("receive", "RECEIVE"), ("receive_timeout", "RECEIVE_TIMEOUT")]:
+        arms, lt = arms_of(fn)
+        facts[nm + "_ARMS"] = arms
+        emit(f"Definition {nm}_ARMS : list select_arm := [" + "; ".join(arms) + "].")
+        defB(nm + "_LOOPS_ON_TRY_RECEIVE", lt)
+    # the alarm is the deadline of the first key of the map
+    defB("ALARM_IS_FIRST_TIMER_KEY", bool(re.search(r"fn next_timer_alarm\(&self\)[^{]*\{\s*match self\.timers\.keys\(\)\.next\(\)\s*\{\s*Some\(next_timer\)\s*=>\s*crossbeam_channel::at\(next_timer\.0\),\s*None\s*=>\s*crossbeam_channel::never\(\)", ev)))
+    # try_receive: enque_timers; priority; first timer if expired; plain
+    tb = fn_body(ev, r"pub fn try_receive\s*\(&mut self", "events.rs::try_receive")
+    pos = [tb.find("self.enque_timers()"), tb.find("self.priority_receiver.try_recv()"), tb.find("self.timers.iter().next()"), tb.find("self.receiver.try_recv()")]
+    defB("TRY_RECEIVE_ORDER_PRIO_TIMER_PLAIN", all(x >= 0 for x in pos) and pos == sorted(pos) and "else if" not in tb)
+    # TimerId: (Instant, usize) ordered lexicographically by derive(Ord)
+    m = re.search(r"#\[derive\(([^)]*)\)\]\s*pub struct TimerId\(([^)]*)\);", ev)
+    defB("TIMER_ID_IS_DEADLINE_THEN_SEQ_ORDERED", bool(m) and "Ord" in [x.strip() for x in m.group(1).split(",")] and [x.strip() for x in m.group(2).split(",")] == ["Instant", "usize"])
+    defB("TIMERS_IS_BTREEMAP_BY_TIMER_ID", "timers: BTreeMap<TimerId, E>" in ev)
+    emit("")
+
     # ---- integer-encoding ------------------------------------------------------------------
     d, ver = registry_src("integer-encoding")
     vt = strip_comments(open(os.path.join(d, "src", "varint.rs")).read())
